@@ -158,6 +158,7 @@ PROPERTIES = {
   'C05': {
     'verus': ['lexer', 'tripcount'],
     'verus_route': {'lexer': 'totality'},
+    'thorough_witness': ['parser_terminates'],
     'kani': ['fold', 'induction'],
     # only the harnesses whose failure is a compiler crash (panic) on some input
     'kani_only': {'fold': ['fold_mul', 'fold_plus', 'fold_minus', 'fold_shl', 'fold_shr', 'fold_land', 'fold_lor', 'fold_xor',
@@ -172,14 +173,17 @@ PROPERTIES = {
              'lexer scanners; panic-freedom of constant folding and trip-count analysis; parser / checker / printer not covered',
   },
   'C01': {
-    'verus': ['enumlayout', 'oparms', 'wasmlower', 'loopvars'],
-    'verus_only': {'oparms': ['wasm_binary_arm']},
+    'verus': ['enumlayout', 'oparms', 'wasmlower', 'loopvars', 'objpat', 'strconst'],
+    'verus_only': {'oparms': ['wasm_binary_arm'],
+                   # the WebAssembly side of string constants: the data segment holds the constant's UTF-8 bytes
+                   'strconst': ['wasm_global_string', 'print_byte_vec', 'byte_digit_to_char', 'lemma_wat_text_denotes_the_bytes',
+                                'lemma_decode_append', 'lemma_decode_enc_byte']},
     'kani': ['wasmops'],
     'level': 'proof',
     'scope': 'three kernels only: the WebAssembly instruction selected for each of the 16 operators (and ref.eq for reference '
              'equality) by the real printer; the admissibility predicate of the unboxed enum-variant layout; the loop variables of a '
              'lowered While (a rewritten self tail call) can be assigned one after the other without changing their simultaneous '
-             'meaning; every other lowering / specialisation pass (incl. the variant loop that uses the predicate, the tail-call '
+             'meaning (saved copies are plain copies of the reassigned variable\'s own type); an object pattern element reads the field it names; every other lowering / specialisation pass (incl. the variant loop that uses the predicate, the tail-call '
              'rewrite itself) and the runtime library are not covered',
   },
   'C04': {
@@ -215,11 +219,13 @@ PROPERTIES = {
              'import sorting and re-parsing as such are not covered',
   },
   'C10': {
-    'verus': ['depgraph'],
+    'verus': ['depgraph', 'srvstate'],
     'kani': [],
     'level': 'proof',
-    'scope': 'kernel only: the recheck set (affected_set / transitive_set) contains the dirty modules, everything that '
-             'transitively imports them, and is closed under imports; ServerState update/rename/remove are not covered',
+    'scope': 'kernels only: the recheck set (affected_set / transitive_set) contains the dirty modules, everything that '
+             'transitively imports them, and is closed under imports; ServerState::{update, rename_module, remove} reach `recheck` '
+             'with its documented preconditions (tables consistent, signatures rebuilt, graph rebuilt from the current modules, recheck '
+             'set a conservative estimate of what changed); `recheck` itself (rayon type checking, error collation, GC) is not covered',
   },
   'C14': {
     'verus': ['lexer'],
@@ -270,6 +276,8 @@ STANDING_ASSUMPTIONS = {
     'the induction variable is compared over mathematical integers; the in-range clause makes that equal to the wrapping run',
   ],
   'algebra': ['Verus/Z3 nonlinear arithmetic; vstd specs of i32::wrapping_mul / wrapping_add'],
+  'objpat': ['Verus/Z3; the element is reduced to field_order and its nested pattern, hir::Statement to the IndexedAccess variant (R6); the '
+             'recursive lowering of the nested pattern is opaque; field_order is the index the checker gives the named field (assumed)'],
   'loopvars': ['Verus/Z3; the back ends are assumed to assign loop values in list order (or at once); alloc_temp_str returns a name the heap '
                'has not issued before (C17) and every name in the loop came from that heap; derived Clone = structural copy; '
                'the closure that lowers each MIR loop variable keeps its name (R3); values are abstract integers'],
@@ -300,11 +308,14 @@ STANDING_ASSUMPTIONS = {
   'dce': ['Verus/Z3; PStr opaque with std Hash/Eq obeying the key model; '
           'the enclosing match of optimize_stmt and optimize_stmts (which removes the statements flagged false) are not under contract (R14)'],
   'foldv': ['Verus/Z3; vstd specs of i32::checked_div / checked_rem / wrapping_* (truncating division)'],
+  'srvstate': ['Verus/Z3; ServerState reduced to the tables the entry points touch (R6) plus a ghost snapshot of the modules at the last '
+               'recheck; `recheck` is a stub whose precondition is its documented contract; DependencyGraph::{new, affected_set} carry the '
+               'contracts proved in unit depgraph; parse / build_module_signature are uninterpreted functions of (text, module) / (module, parse); '
+               'a module\'s imports depend only on its own parsed form'],
   'depgraph': [
     'vstd models of HashMap / HashSet / Vec and their iterators; obeys_key_model::<ModuleReference>()',
     'termination of transitive_set is NOT proved (exec_allows_no_decreases_clause): partial correctness only',
     'R3 stub: initial.into_iter().collect_vec() returns a vector with exactly the elements of the set',
-    'DependencyGraph::new (graph construction from the parsed modules) is not covered',
   ],
   'lexer': [
     'logos::Lexer is opaque (R7): remainder() = text from the current offset, bump(n) panics unless n is in range and on a char boundary; the generated DFA is not covered',
